@@ -157,7 +157,7 @@ def check(F, rep, tier):
                 top = f
                 while top.kind == "closure" and top.parent and F.fn(top.parent) is not None: top = F.fn(top.parent)
                 callers = {g.path for g, b2 in cg.sites.get(top.path, [])}
-                if top.path == ROOT or (callers and callers <= {ROOT}):
+                if top.path == ROOT or (callers and callers <= mir.private_helpers_of(F, cg, ROOT, "crate::cli::app::")):
                     rep.ok("R14.4", "process arguments are read by run() (through its private helper %s)" % top.path.rsplit("::", 1)[-1], sample=site, nontrivial_key="args" + fk)
                     continue
                 rep.bad("R14.4", "args:" + fk, "process arguments read outside run()", site)
